@@ -174,8 +174,9 @@ def check(expr, free, rec, deciding=True, after_failed=None):
             return bad("result-uses-unassigned-variable", f"result mentions {n} which was never assigned")
     fset = set(free)
     for n, e in sas:
-        vs = variables(e)
-        hit = vs & fset
+        fs = set()
+        vs = variables(e, None, fs)
+        hit = (vs | fs) & fset          # (a function symbol may be declared free as well)
         if hit:
             return bad("hoisted-expression-mentions-free-variable",
                        f"{n} <- {e} mentions free variable(s) {sorted(hit)}")
@@ -235,6 +236,16 @@ def run_shard(shard, rec):
                       after_failed=prev if (i % 4 == 1 and prev is not None) else None)
                 rec.case([expr, list(free)],
                          nontrivial=deciding and bool(vs) and expr[0] not in ("var", "num"))
+        fs = set()
+        variables(expr, None, fs)
+        if fs and i % 3 == 0:
+            # a function symbol among the free variables: calls through it are not constant
+            fname = sorted(fs)[i % len(fs)]
+            for r in range(min(len(vs), 2) + 1):
+                for free in itertools.combinations(vs, r):
+                    check(expr, list(free) + [fname], rec, deciding)
+                    rec.case([expr, list(free) + [fname]], nontrivial=deciding)
+                    rec.count("free_sets_with_a_function_symbol")
         prev = expr
         rec.count("expressions")
         rec.count("free_sets_all_subsets" if True else "")
